@@ -17,12 +17,10 @@
 (* was mixed in is equal.  A second world differs by an edit (a set of     *)
 (* atoms; the design configurations use single atoms).                     *)
 (*                                                                         *)
-(* LegalInHash = FALSE is the code as it is (external legal comments are   *)
-(* not mixed into the isolated hash); TRUE is the candidate repair.        *)
+(* w.lih = FALSE is the code as it is (external legal comments are not     *)
+(* mixed into the isolated hash); TRUE is the candidate repair.            *)
 (***************************************************************************)
 EXTENDS Integers, Sequences, FiniteSets, TLC
-
-CONSTANT LegalInHash
 
 None == -1
 
@@ -36,6 +34,7 @@ None == -1
 (*  pp      : BOOLEAN                     a public path is configured      *)
 (*  sm      : "none" | "linked" | "external" | "inline"                    *)
 (*  legal   : "none" | "inline" | "eof" | "linked" | "external"            *)
+(*  lih     : BOOLEAN  external legal comments are mixed into the hash   *)
 (*  fake    : [chunks -> BOOLEAN]  the input text contains a string of the *)
 (*            placeholder shape (with a foreign prefix)                    *)
 (* atoms: code, parts, tmpl, smap, legalv : [chunks -> Nat], ppv : Nat,    *)
@@ -69,13 +68,15 @@ Iso(w, c) ==
     pp     |-> IF w.pp THEN w.ppv ELSE None,
     pieces |-> Pieces(w, c),
     sm     |-> IF w.sm # "none" THEN w.smap[c] ELSE None,
-    legal  |-> IF LegalInHash /\ ExtLegal(w, c) # 0 THEN ExtLegal(w, c) ELSE None ]
+    legal  |-> IF w.lih /\ ExtLegal(w, c) # 0 THEN ExtLegal(w, c) ELSE None ]
 
 \* A path is a record of one shape for all kinds of files, so that paths of
 \* different kinds can be compared: kind, owner (chunk number or asset id as a
 \* string), template atom, final hash (a sequence, <<>> without [hash]) and
 \* asset hash.
-Path(kind, owner, tmpl, final, ah) == [k |-> kind, o |-> owner, t |-> tmpl, f |-> final, h |-> ah]
+\* (the field names are chosen so that the cheap, discriminating fields come
+\* first in TLC's field order: comparisons settle before the nested hash)
+Path(kind, owner, tmpl, final, ah) == [a_kind |-> kind, b_owner |-> owner, c_tmpl |-> tmpl, d_ah |-> ah, e_final |-> final]
 
 \* names of assets: the hash of the bytes only (bundler.go)
 AName(w, a) == Path("asset", a, None, <<>>, IF w.hashedA THEN w.abytes[a] ELSE None)
@@ -100,8 +101,15 @@ VisitAll(w, cs, acc) == IF cs = <<>> THEN acc ELSE VisitAll(w, Tail(cs), Visit(w
 Final(w, c) == Visit(w, c, [seen |-> {}, out |-> <<>>]).out
 
 CName(w, c) == Path("chunk", ToString(c), w.tmpl[c], IF w.hashedC[c] THEN Final(w, c) ELSE <<>>, None)
-MapName(w, c) == [CName(w, c) EXCEPT !.k = "map"]
-LegalName(w, c) == [CName(w, c) EXCEPT !.k = "legal"]
+\* The names of all chunks are computed once per world and kept in the field
+\* `names` (a sequence indexed by chunk number); the operators below take such
+\* a "named" world v.
+RECURSIVE NamesSeq(_, _)
+NamesSeq(w, k) == IF k = 0 THEN <<>> ELSE Append(NamesSeq(w, k - 1), CName(w, k))
+Named(w) == [w EXCEPT !.names = NamesSeq(w, Cardinality(w.chunks))]
+NameOf(v, c) == v.names[c]
+MapName(v, c) == [NameOf(v, c) EXCEPT !.a_kind = "map"]
+LegalName(v, c) == [NameOf(v, c) EXCEPT !.a_kind = "legal"]
 
 (***************************************************************************)
 (* Two-phase generation: intermediate output with placeholders, then       *)
@@ -123,13 +131,13 @@ Ref(w, name) == [pp |-> IF w.pp THEN w.ppv ELSE None, to |-> name]
 ChunkByStr(w, str) == CHOOSE c \in w.chunks : ToString(c) = str
 SubstTok(w, tok) ==
   IF tok.t # "key" THEN tok
-  ELSE IF tok.v[1] = "C" THEN [t |-> "ref", v |-> <<Ref(w, CName(w, ChunkByStr(w, tok.v[2])))>>]
+  ELSE IF tok.v[1] = "C" THEN [t |-> "ref", v |-> <<Ref(w, NameOf(w, ChunkByStr(w, tok.v[2])))>>]
   ELSE [t |-> "ref", v |-> <<Ref(w, AName(w, tok.v[2]))>>]
 RECURSIVE Subst(_, _)
 Subst(w, toks) == IF toks = <<>> THEN <<>> ELSE <<SubstTok(w, Head(toks))>> \o Subst(w, Tail(toks))
 
 \* the finalised source map: the mappings shifted by the substituted paths
-FinalMap(w, c) == [smap |-> w.smap[c], shifts |-> {Ref(w, CName(w, d)) : d \in w.imp[c]} \cup {Ref(w, AName(w, a)) : a \in w.aref[c]}]
+FinalMap(w, c) == [smap |-> w.smap[c], shifts |-> {Ref(w, NameOf(w, d)) : d \in w.imp[c]} \cup {Ref(w, AName(w, a)) : a \in w.aref[c]}]
 
 \* Bytes have one shape for all kinds of files as well
 Bytes(body, legal, smlink, sminl, raw) == [body |-> body, legal |-> legal, smlink |-> smlink, sminl |-> sminl, raw |-> raw]
@@ -149,12 +157,13 @@ RefsOfBytes(b) ==
   RefsOfBody(b.body) \cup {b.legal[k].to : k \in 1..Len(b.legal)} \cup {b.smlink[k].to : k \in 1..Len(b.smlink)}
 
 \* the emitted files: [path, bytes, hashed, kind, owner, refs]
-File(path, bytes, hashed, kind, owner) == [path |-> path, bytes |-> bytes, hashed |-> hashed, kind |-> kind, owner |-> owner, refs |-> RefsOfBytes(bytes)]
-Files(w) ==
-  {File(CName(w, c), ChunkBytes(w, c), w.hashedC[c], "chunk", ToString(c)) : c \in w.chunks}
-  \cup {File(MapName(w, c), Bytes(<<>>, <<>>, <<>>, <<FinalMap(w, c)>>, None), w.hashedC[c], "map", ToString(c)) : c \in {d \in w.chunks : HasMap(w)}}
-  \cup {File(LegalName(w, c), Bytes(<<>>, <<>>, <<>>, <<>>, ExtLegal(w, c)), w.hashedC[c], "legal", ToString(c)) : c \in {d \in w.chunks : ExtLegal(w, d) # 0}}
-  \cup {File(AName(w, a), Bytes(<<>>, <<>>, <<>>, <<>>, w.abytes[a]), w.hashedA, "asset", a) : a \in UsedAssets(w)}
+File(path, bytes, hashed, kind, owner) == [a_kind |-> kind, b_owner |-> owner, c_hashed |-> hashed, path |-> path, q_bytes |-> bytes, refs |-> RefsOfBytes(bytes)]
+FilesN(v) ==
+  {File(NameOf(v, c), ChunkBytes(v, c), v.hashedC[c], "chunk", ToString(c)) : c \in v.chunks}
+  \cup {File(MapName(v, c), Bytes(<<>>, <<>>, <<>>, <<FinalMap(v, c)>>, None), v.hashedC[c], "map", ToString(c)) : c \in {d \in v.chunks : HasMap(v)}}
+  \cup {File(LegalName(v, c), Bytes(<<>>, <<>>, <<>>, <<>>, ExtLegal(v, c)), v.hashedC[c], "legal", ToString(c)) : c \in {d \in v.chunks : ExtLegal(v, d) # 0}}
+  \cup {File(AName(v, a), Bytes(<<>>, <<>>, <<>>, <<>>, v.abytes[a]), v.hashedA, "asset", a) : a \in UsedAssets(v)}
+Files(w) == FilesN(Named(w))
 
 Paths(w) == {f.path : f \in Files(w)}
 RefsOf(f) == f.refs
@@ -187,16 +196,16 @@ ApplySeq(w, es) == IF es = <<>> THEN w ELSE ApplySeq(Apply1(w, Head(es)), Tail(e
 (* The properties, over a pair of worlds                                   *)
 (***************************************************************************)
 SamePathSameBytesF(F1, F2) ==
-  \A f1 \in F1, f2 \in F2 : (f1.path = f2.path /\ f1.hashed) => f1.bytes = f2.bytes
+  \A f1 \in F1, f2 \in F2 : (f1.path = f2.path /\ f1.c_hashed) => f1.q_bytes = f2.q_bytes
 SamePathSameBytes(w1, w2) == SamePathSameBytesF(Files(w1), Files(w2))
 
 \* the files of a chunk (itself and its companions); the chunk changed if a
 \* file of the same kind is emitted by both builds with different bytes
-OwnFiles(F, c) == {[k |-> f.kind, b |-> f.bytes] : f \in {g \in F : g.owner = ToString(c) /\ g.kind # "asset"}}
+OwnFiles(F, c) == {[k |-> f.a_kind, b |-> f.q_bytes] : f \in {g \in F : g.b_owner = ToString(c) /\ g.a_kind # "asset"}}
 
 ChangePropagatesF(w1, w2, F1, F2) ==
-  LET n1 == [d \in w1.chunks |-> CName(w1, d)]
-      n2 == [d \in w1.chunks |-> CName(w2, d)]
+  LET n1 == NamesSeq(w1, Cardinality(w1.chunks))
+      n2 == NamesSeq(w2, Cardinality(w2.chunks))
       reach == [d \in w1.chunks |-> Reach(w1, d)]
   IN
   /\ \A c \in w1.chunks : (\E f1 \in OwnFiles(F1, c), f2 \in OwnFiles(F2, c) : f1.k = f2.k /\ f1.b # f2.b) =>
@@ -206,15 +215,18 @@ ChangePropagatesF(w1, w2, F1, F2) ==
         /\ \A d \in w1.chunks : (w1.hashedC[d] /\ \E c \in reach[d] : a \in w1.aref[c]) => n1[d] # n2[d]
 ChangePropagates(w1, w2) == ChangePropagatesF(w1, w2, Files(w1), Files(w2))
 
-RefsResolveF(F) == \A f \in F : f.refs \subseteq {g.path : g \in F}
-RefsResolve(w) == \A f \in Files(w) : RefsOf(f) \subseteq Paths(w)
+RefsResolveF(F) == \A f \in F : \A r \in f.refs : \E g \in F : g.path = r
+RefsResolve(w) == RefsResolveF(Files(w))
 
 RECURSIVE NoKey(_)
 NoKey(toks) == IF toks = <<>> THEN TRUE ELSE (Head(toks).t # "key" /\ NoKey(Tail(toks)))
 \* no placeholder survives, and placeholder-like user text is left alone
-NoPlaceholderSurvives(w) ==
-  \A c \in w.chunks : /\ NoKey(ChunkBytes(w, c).body)
-                      /\ (w.fake[c] => \E k \in 1..Len(ChunkBytes(w, c).body) : ChunkBytes(w, c).body[k].t = "fake")
+NoPlaceholderSurvivesF(w, F) ==
+  \A f \in F : f.a_kind = "chunk" =>
+     LET body == f.q_bytes.body
+     IN /\ NoKey(body)
+        /\ (w.fake[ChunkByStr(w, f.b_owner)] => \E k \in 1..Len(body) : body[k].t = "fake")
+NoPlaceholderSurvives(w) == NoPlaceholderSurvivesF(w, Files(w))
 
 Failing(w1, w2) ==
   LET F1 == Files(w1)
@@ -223,5 +235,5 @@ Failing(w1, w2) ==
   (IF SamePathSameBytesF(F1, F2) THEN {} ELSE {"SamePathSameBytes"}) \cup
   (IF ChangePropagatesF(w1, w2, F1, F2) THEN {} ELSE {"ChangePropagates"}) \cup
   (IF RefsResolveF(F1) /\ RefsResolveF(F2) THEN {} ELSE {"RefsResolve"}) \cup
-  (IF NoPlaceholderSurvives(w1) /\ NoPlaceholderSurvives(w2) THEN {} ELSE {"NoPlaceholderSurvives"})
+  (IF NoPlaceholderSurvivesF(w1, F1) /\ NoPlaceholderSurvivesF(w2, F2) THEN {} ELSE {"NoPlaceholderSurvives"})
 =============================================================================
